@@ -379,6 +379,58 @@ class Index:
                 if keys:
                     tdefs[0].value = ast.copy_location(ast.Dict(keys=keys, values=vals), tdefs[0].value)
                     ast.fix_missing_locations(tdefs[0])
+        # third form: a decorator FACTORY -- `def rule(key): def register(f): _R[E(key)] = f; return f; return register` with
+        # `@rule("a") def f ...` -- is the table `{E("a"): f, ...}` in definition order (several keys: `@rule("a") @rule("b")`)
+        for m in self.modules.values():
+            for fn in [x for x in m.tree.body if isinstance(x, ast.FunctionDef)]:
+                if fn.args.vararg or fn.args.kwarg or fn.decorator_list or not fn.args.args or fn.args.kwonlyargs:
+                    continue
+                body = [x for x in fn.body if not (isinstance(x, ast.Expr) and isinstance(x.value, ast.Constant))]
+                if len(body) != 2 or not isinstance(body[0], ast.FunctionDef) or not isinstance(body[1], ast.Return) \
+                        or not isinstance(body[1].value, ast.Name) or body[1].value.id != body[0].name:
+                    continue
+                inner = body[0]
+                if len(inner.args.args) != 1 or inner.args.vararg or inner.args.kwarg or inner.decorator_list:
+                    continue
+                par = inner.args.args[0].arg
+                ib = [x for x in inner.body if not (isinstance(x, ast.Expr) and isinstance(x.value, ast.Constant))]
+                if len(ib) != 2 or not isinstance(ib[1], ast.Return) or not isinstance(ib[1].value, ast.Name) or ib[1].value.id != par:
+                    continue
+                a = ib[0]
+                if not (isinstance(a, ast.Assign) and len(a.targets) == 1 and isinstance(a.targets[0], ast.Subscript) and isinstance(a.targets[0].value, ast.Name)
+                        and isinstance(a.value, ast.Name) and a.value.id == par):
+                    continue
+                tname = a.targets[0].value.id
+                tdefs = m.defs.get(tname, [])
+                if len(tdefs) != 1 or not isinstance(tdefs[0], (ast.Assign, ast.AnnAssign)) or not (
+                        (isinstance(tdefs[0].value, ast.Dict) and not tdefs[0].value.keys)
+                        or (isinstance(tdefs[0].value, ast.Call) and isinstance(tdefs[0].value.func, ast.Name) and tdefs[0].value.func.id == "dict" and not tdefs[0].value.args and not tdefs[0].value.keywords)):
+                    continue
+                writes = [x for x in ast.walk(m.tree) if isinstance(x, ast.Subscript) and isinstance(x.ctx, (ast.Store, ast.Del)) and isinstance(x.value, ast.Name) and x.value.id == tname]
+                calls = [x for x in ast.walk(m.tree) if isinstance(x, ast.Call) and isinstance(x.func, ast.Attribute) and isinstance(x.func.value, ast.Name) and x.func.value.id == tname
+                         and x.func.attr in ("update", "setdefault", "pop", "popitem", "clear", "__setitem__")]
+                if len(writes) != 1 or calls:
+                    continue
+                fparams = [x.arg for x in fn.args.args]
+                keys, vals = [], []
+                for d in m.tree.body:
+                    if not isinstance(d, (ast.ClassDef, ast.FunctionDef)):
+                        continue
+                    mine = [dc for dc in d.decorator_list if isinstance(dc, ast.Call) and isinstance(dc.func, ast.Name) and dc.func.id == fn.name
+                            and not dc.keywords and len(dc.args) == len(fparams) and not any(isinstance(x, ast.Starred) for x in dc.args)]
+                    for dc in reversed(mine):
+                        bind = dict(zip(fparams, dc.args))
+
+                        class _S3(ast.NodeTransformer):
+                            def visit_Name(self_, x):
+                                return copy.deepcopy(bind[x.id]) if x.id in bind else x
+                        keys.append(ast.copy_location(_S3().visit(copy.deepcopy(a.targets[0].slice)), d))
+                        vals.append(ast.copy_location(ast.Name(id=d.name, ctx=ast.Load()), d))
+                    if mine:
+                        d.decorator_list = [dc for dc in d.decorator_list if dc not in mine]
+                if keys:
+                    tdefs[0].value = ast.copy_location(ast.Dict(keys=keys, values=vals), tdefs[0].value)
+                    ast.fix_missing_locations(tdefs[0])
         patterns = {}
         for m in self.modules.values():
             for ci in m.classes.values():
